@@ -183,8 +183,10 @@ var appendNUL = os.Getenv("C12_APPEND_NUL") == "1"
 // stringAlterations returns (kind, new value) pairs for one string leaf.
 func stringAlterations(key, s string) [][2]string {
 	var out [][2]string
+	seen := map[string]bool{s: true}
 	add := func(kind, v string) {
-		if v != s {
+		if !seen[v] {
+			seen[v] = true
 			out = append(out, [2]string{kind, v})
 		}
 	}
@@ -194,6 +196,14 @@ func stringAlterations(key, s string) [][2]string {
 		body := s[2:]
 		for _, pos := range uniqInts(0, len(body)/2, len(body)-1) {
 			add(fmt.Sprintf("flip-nibble@%s", posName(pos, len(body))), "0x"+replaceAt(body, pos, flipNibble(body[pos])))
+		}
+		for _, pp := range byteFlipPositions(body) {
+			class, _ := pp[0].(string)
+			pos, _ := pp[1].(int)
+			add("flip-byte@"+class, "0x"+replaceAt(body, 2*pos+1, flipNibble(body[2*pos+1])))
+		}
+		for _, kv := range entryAlterations(body) {
+			add(kv[0], kv[1])
 		}
 		add("append-byte-00", s+"00")
 		add("prepend-byte-00", "0x00"+body)
@@ -438,7 +448,7 @@ type verifier interface {
 // judgeDoc decodes b with the real json.Unmarshal and runs the real verifiers in the order charon's
 // loaders use (hashes, then signatures). sideSigs additionally runs VerifySignatures on documents
 // whose hashes were already rejected, only to observe panics (the --no-verify path runs both).
-func judgeDoc(kind string, b []byte, sideSigs bool) outcome {
+func judgeDoc(kind string, b []byte, eth1 eth1wrap.EthClientRunner, sideSigs bool) outcome {
 	var (
 		v       verifier
 		decoded any
@@ -473,12 +483,12 @@ func judgeDoc(kind string, b []byte, sideSigs bool) outcome {
 	} else if herr != nil {
 		out.Stage, out.Err = "hashes", errStr(herr)
 		if sideSigs {
-			_, out.SigPanic = guard(func() error { return v.VerifySignatures(noEth1) })
+			_, out.SigPanic = guard(func() error { return v.VerifySignatures(eth1) })
 		}
 
 		return out
 	}
-	serr, sp := guard(func() error { return v.VerifySignatures(noEth1) })
+	serr, sp := guard(func() error { return v.VerifySignatures(eth1) })
 	switch {
 	case sp != "":
 		out.Stage, out.Panic = "signatures", sp
@@ -544,22 +554,24 @@ func exemptFor(kind, version, class string, decoded any) *exemption {
 // Building a fully valid, signed lock (+definition) of a given version
 
 type baseMeta struct {
-	Version     string `json:"version"`
-	Nodes       int    `json:"nodes"`
-	Threshold   int    `json:"threshold"`
-	Validators  int    `json:"validators"`
-	Network     string `json:"network"`
-	Amounts     []int  `json:"deposit_amounts_eth,omitempty"`
-	Compounding bool   `json:"compounding,omitempty"`
-	Consensus   string `json:"consensus_protocol,omitempty"`
-	Name        string `json:"name"`
-	Seed        int    `json:"newfort_seed"`
+	Version     string     `json:"version"`
+	Nodes       int        `json:"nodes"`
+	Threshold   int        `json:"threshold"`
+	Validators  int        `json:"validators"`
+	Network     string     `json:"network"`
+	Amounts     []int      `json:"deposit_amounts_eth,omitempty"`
+	Compounding bool       `json:"compounding,omitempty"`
+	Consensus   string     `json:"consensus_protocol,omitempty"`
+	Name        string     `json:"name"`
+	Safes       []safeMeta `json:"contract_accounts,omitempty"`
+	Seed        int        `json:"newfort_seed"`
 }
 
 var newForTMu sync.Mutex
 
 // buildBase returns the JSON of a valid signed lock and of its definition.
-func buildBase(t *testing.T, rng *rand.Rand, version string) (lockJSON, defJSON []byte, meta baseMeta, err error) {
+func buildBase(t *testing.T, rng *rand.Rand, version string) (lockJSON, defJSON []byte, meta baseMeta, eth1 eth1wrap.EthClientRunner, err error) {
+	eth1 = noEth1
 	minor := minorOf(version)
 	n := 3 + rng.Intn(3)
 	k := 2 + rng.Intn(n-1)
@@ -576,7 +588,7 @@ func buildBase(t *testing.T, rng *rand.Rand, version string) (lockJSON, defJSON 
 
 	forkVersion, err := hex.DecodeString(strings.TrimPrefix(net.GenesisForkVersionHex, "0x"))
 	if err != nil {
-		return nil, nil, meta, err
+		return nil, nil, meta, eth1, err
 	}
 
 	if minor >= 10 && rng.Intn(2) == 0 {
@@ -626,6 +638,15 @@ func buildBase(t *testing.T, rng *rand.Rand, version string) (lockJSON, defJSON 
 	lock, p2pKeys, dvShares := cluster.NewForT(t, dv, k, n, seed, rand.New(rand.NewSource(int64(seed))), opt) //nolint:gosec // deterministic
 	newForTMu.Unlock()
 
+	// Contract-account (Safe multisig / ERC-1271) operators and creator, see safe_multisig_test.go.
+	if opPlans, creatorPlan := planSafes(rng, minor, n); len(opPlans) > 0 || creatorPlan != nil {
+		def, fake, metas, err := applySafes(rng, lock.Definition, p2pKeys, opPlans, creatorPlan)
+		if err != nil {
+			return nil, nil, meta, eth1, fmt.Errorf("contract accounts: %w", err)
+		}
+		lock.Definition, eth1, meta.Safes = def, fake, metas
+	}
+
 	// Add signed deposit data where the format carries it (NewForT leaves it empty).
 	if minor >= 6 {
 		amounts := lock.DepositAmounts
@@ -644,21 +665,21 @@ func buildBase(t *testing.T, rng *rand.Rand, version string) (lockJSON, defJSON 
 			}
 			secret, err := tbls.RecoverSecret(shares, uint(n), uint(k))
 			if err != nil {
-				return nil, nil, meta, err
+				return nil, nil, meta, eth1, err
 			}
 			var pdd []cluster.DepositData
 			for _, amount := range amounts {
 				msg, err := deposit.NewMessage(eth2p0.BLSPubKey(lock.Validators[vi].PubKey), wdAddrs[vi], amount, lock.Compounding)
 				if err != nil {
-					return nil, nil, meta, err
+					return nil, nil, meta, eth1, err
 				}
 				root, err := deposit.GetMessageSigningRoot(msg, net.Name)
 				if err != nil {
-					return nil, nil, meta, err
+					return nil, nil, meta, eth1, err
 				}
 				sig, err := tbls.Sign(secret, root[:])
 				if err != nil {
-					return nil, nil, meta, err
+					return nil, nil, meta, eth1, err
 				}
 				pdd = append(pdd, cluster.DepositData{
 					PubKey: msg.PublicKey[:], WithdrawalCredentials: msg.WithdrawalCredentials,
@@ -671,21 +692,21 @@ func buildBase(t *testing.T, rng *rand.Rand, version string) (lockJSON, defJSON 
 
 	lock, err = lock.SetLockHash()
 	if err != nil {
-		return nil, nil, meta, err
+		return nil, nil, meta, eth1, err
 	}
 	var sigs []tbls.Signature
 	for _, shares := range dvShares {
 		for _, share := range shares {
 			sig, err := tbls.Sign(share, lock.LockHash)
 			if err != nil {
-				return nil, nil, meta, err
+				return nil, nil, meta, eth1, err
 			}
 			sigs = append(sigs, sig)
 		}
 	}
 	agg, err := tbls.Aggregate(sigs)
 	if err != nil {
-		return nil, nil, meta, err
+		return nil, nil, meta, eth1, err
 	}
 	lock.SignatureAggregate = agg[:]
 	lock.NodeSignatures = nil
@@ -693,7 +714,7 @@ func buildBase(t *testing.T, rng *rand.Rand, version string) (lockJSON, defJSON 
 		for _, key := range p2pKeys {
 			sig, err := k1util.Sign(key, lock.LockHash)
 			if err != nil {
-				return nil, nil, meta, err
+				return nil, nil, meta, eth1, err
 			}
 			lock.NodeSignatures = append(lock.NodeSignatures, sig)
 		}
@@ -701,18 +722,18 @@ func buildBase(t *testing.T, rng *rand.Rand, version string) (lockJSON, defJSON 
 
 	lockJSON, err = json.Marshal(lock)
 	if err != nil {
-		return nil, nil, meta, err
+		return nil, nil, meta, eth1, err
 	}
 	var back cluster.Lock
 	if err := json.Unmarshal(lockJSON, &back); err != nil {
-		return nil, nil, meta, fmt.Errorf("decode own lock: %w", err)
+		return nil, nil, meta, eth1, fmt.Errorf("decode own lock: %w", err)
 	}
 	defJSON, err = json.Marshal(back.Definition)
 	if err != nil {
-		return nil, nil, meta, err
+		return nil, nil, meta, eth1, err
 	}
 
-	return lockJSON, defJSON, meta, nil
+	return lockJSON, defJSON, meta, eth1, nil
 }
 
 func randAddr(rng *rand.Rand, checksummed bool) string {
@@ -824,6 +845,7 @@ type baseEntry struct {
 	lockJSON []byte
 	defJSON  []byte
 	meta     baseMeta
+	eth1     eth1wrap.EthClientRunner
 	err      error
 }
 
@@ -836,7 +858,7 @@ func baseFor(r *kit.Run, unit int, version string) *baseEntry {
 	v, _ := baseCache.LoadOrStore(unit, &baseEntry{})
 	e, _ := v.(*baseEntry)
 	e.once.Do(func() {
-		e.lockJSON, e.defJSON, e.meta, e.err = buildBase(r.T(), r.Rand(1_000_000+unit, 1), version)
+		e.lockJSON, e.defJSON, e.meta, e.eth1, e.err = buildBase(r.T(), r.Rand(1_000_000+unit, 1), version)
 	})
 
 	return e
@@ -857,7 +879,8 @@ func runTamperShard(c *kit.Case, unit int, version, kind string, shard, shards i
 		docJSON = e.defJSON
 	}
 
-	base := judgeDoc(kind, docJSON, false)
+	base := judgeDoc(kind, docJSON, e.eth1, false)
+	baseHashes, _ := recomputeHashes(base.Decoded)
 	if base.Stage != "accepted" {
 		r.Inconclusive("W2 %s %s: generated base document does not verify (%s: %s %s) meta=%+v", version, kind, base.Stage, base.Err, base.Panic, meta)
 		return
@@ -871,7 +894,7 @@ func runTamperShard(c *kit.Case, unit int, version, kind string, shard, shards i
 	if b, err := json.Marshal(tree); err != nil {
 		r.Inconclusive("W2 marshal tree: %v", err)
 		return
-	} else if o := judgeDoc(kind, b, false); o.Stage != "accepted" || !semEqual(o.Decoded, base.Decoded) {
+	} else if o := judgeDoc(kind, b, e.eth1, false); o.Stage != "accepted" || !semEqual(o.Decoded, base.Decoded) {
 		r.Inconclusive("W2 %s %s: unaltered re-marshalled tree differs from base (%s %s)", version, kind, o.Stage, o.Err)
 		return
 	}
@@ -896,7 +919,7 @@ func runTamperShard(c *kit.Case, unit int, version, kind string, shard, shards i
 		r.Count("tamper_alterations", 1)
 		r.Seen("tamper_alteration_kinds", strings.SplitN(alt.Kind, ":", 2)[0])
 		class := alt.Path.Class()
-		o := judgeDoc(kind, b, ai%sideSigsEvery == 0)
+		o := judgeDoc(kind, b, e.eth1, ai%sideSigsEvery == 0)
 		if o.Panic != "" || o.SigPanic != "" {
 			p, stage := o.Panic, o.Stage
 			if p == "" {
@@ -904,6 +927,25 @@ func runTamperShard(c *kit.Case, unit int, version, kind string, shard, shards i
 			}
 			r.Count("tamper_panics", 1)
 			panics.add(panicObs{Kind: kind, Version: version, Path: class, Alt: alt.Kind, Stage: stage, Panic: kit.Short(p, 200), Doc: string(b)})
+		}
+		// Direct hash-sensitivity oracle: a same-length (or whole-entry) change of a hashed member must
+		// change at least one of the recomputed config / definition / lock hashes.
+		if o.Decoded != nil && sensitivityKind(alt.Kind) && !unhashedClass(class) && !semEqual(o.Decoded, base.Decoded) {
+			if h, err := recomputeHashes(o.Decoded); err == nil {
+				r.Count("hash_sensitivity_checked", 1)
+				if h == baseHashes {
+					oldV, _ := json.Marshal(getAtSafe(tree, alt.Path))
+					newV, _ := json.Marshal(getAtSafe(fresh, alt.Path))
+					c.Violation(fmt.Sprintf("cluster/hash-insensitive/%s/%s/%s", kind, version, class),
+						fmt.Sprintf("%s %s: alteration %q of %s changes the decoded value of a hashed member but the recomputed config, definition and lock hashes are all unchanged (verification stage: %s)", kind, version, alt.Kind, alt.Path, o.Stage),
+						map[string]any{
+							"kind": kind, "version": version, "path": alt.Path.String(), "alteration": alt.Kind, "verification": o.Stage + " " + o.Err,
+							"old_value": kit.Short(string(oldV), 4200), "new_value": kit.Short(string(newV), 4200), "hashes": h,
+							"base_meta": meta, "original_json": string(docJSON), "altered_json": string(b),
+							"reproduce": "json.Unmarshal(original_json) and (altered_json); SetDefinitionHashes() (and SetLockHash() for locks) give identical hashes",
+						})
+				}
+			}
 		}
 		switch o.Stage {
 		case "decode":
@@ -972,4 +1014,60 @@ func exemptionList() []map[string]any {
 	}
 
 	return out
+}
+
+// hashTriple are the hashes charon recomputes from the content of a decoded document.
+type hashTriple struct {
+	Config, Definition, Lock string
+}
+
+func recomputeHashes(decoded any) (hashTriple, error) {
+	switch d := decoded.(type) {
+	case cluster.Definition:
+		d2, err := d.SetDefinitionHashes()
+		if err != nil {
+			return hashTriple{}, err
+		}
+
+		return hashTriple{hex.EncodeToString(d2.ConfigHash), hex.EncodeToString(d2.DefinitionHash), ""}, nil
+	case cluster.Lock:
+		def, err := d.Definition.SetDefinitionHashes()
+		if err != nil {
+			return hashTriple{}, err
+		}
+		d.Definition = def
+		l2, err := d.SetLockHash()
+		if err != nil {
+			return hashTriple{}, err
+		}
+
+		return hashTriple{hex.EncodeToString(def.ConfigHash), hex.EncodeToString(def.DefinitionHash), hex.EncodeToString(l2.LockHash)}, nil
+	}
+
+	return hashTriple{}, fmt.Errorf("unknown document type %T", decoded)
+}
+
+// sensitivityKind selects the alterations the hash-sensitivity oracle judges: those that keep the
+// length of the member (so that the zero padding of fixed-size members, which is guarded by length
+// checks elsewhere, plays no role) and whole-entry edits of signature lists.
+func sensitivityKind(kind string) bool {
+	for _, p := range []string{"flip-", "replace-char", "plus-1", "minus-1", "zero", "toggle", "swap-", "drop-last-entry", "drop-first-entry", "dup-last-entry"} {
+		if strings.HasPrefix(kind, p) {
+			return true
+		}
+	}
+
+	return false
+}
+
+// unhashedClass lists the members that are hashes or lock-level signatures themselves: they are
+// checked by comparison / signature verification, not covered by a hash.
+func unhashedClass(class string) bool {
+	class = strings.TrimPrefix(class, "cluster_definition.")
+	switch class {
+	case "config_hash", "definition_hash", "lock_hash", "signature_aggregate", "node_signatures[]", "node_signatures":
+		return true
+	}
+
+	return false
 }
